@@ -3,6 +3,7 @@
 package main
 
 import (
+	"sync/atomic"
 	"encoding/json"
 	"fmt"
 	"math/rand"
@@ -275,8 +276,183 @@ func c08Stress(w *ndWriter, seed int64, stack bool, P, Cn, n int) {
 	rec.flush(w)
 }
 
+// wide rounds: many goroutines, many calls - too wide for the linearisation search, judged by the necessary conditions of the
+// statement (Trace_ConcWide.tla): no panic, every offered value delivered exactly once after the drain, nothing invented,
+// a consumer sees each producer's values in order (queue).
+//   trickle: producers slower than the consumers, which spin on Take/Poll - the structure is empty most of the time
+//   burst:   producers first build a backlog of `per` values each (thousands pending), then the consumers drain, twice
+type c08WideOut struct {
+	Kind    string           `json:"kind"`
+	Shape   string           `json:"shape"`
+	Offered []int            `json:"offered"`
+	Got     map[string][]int `json:"got"`
+	Drain   []int            `json:"drain"`
+	Panics  int              `json:"panics"`
+	Stuck   bool             `json:"stuck"`
+}
+
+func c08Wide(w *ndWriter, seed int64, stack bool, shape string, P, Cn, per int) {
+	out := c08WideOut{Kind: "queue", Shape: shape, Offered: []int{}, Got: map[string][]int{}, Drain: []int{}}
+	if stack {
+		out.Kind = "stack"
+	}
+	ll := fpgo.NewLinkedListQueue[int]()
+	wr := c08Wrapped{fpgo.NewConcurrentQueue[int](ll), fpgo.NewConcurrentStack[int](ll)}
+	var mu sync.Mutex
+	var panics int32
+	safe := func(m string, v int) (got int, r string) {
+		r = "panic"
+		func() {
+			defer func() {
+				if recover() != nil {
+					atomic.AddInt32(&panics, 1)
+				}
+			}()
+			g, err := wr.call(m, v)
+			got, r = g, resOf(err)
+		}()
+		return
+	}
+	rounds := 1
+	if shape == "burst" {
+		rounds = 2
+	}
+	for round := 0; round < rounds; round++ {
+		var remaining int32 = int32(P * per)
+		produce := func(wg *sync.WaitGroup) {
+			for p := 0; p < P; p++ {
+				wg.Add(1)
+				go func(p int) {
+					defer wg.Done()
+					r := rand.New(rand.NewSource(seed + int64(p)))
+					for i := 1; i <= per; i++ {
+						v := (round*P+p+1)*100000 + i
+						m := []string{"Offer", "Put"}[r.Intn(2)]
+						if stack {
+							m = "Push"
+						}
+						if _, res := safe(m, v); res == "ok" {
+							mu.Lock()
+							out.Offered = append(out.Offered, v)
+							mu.Unlock()
+						} else {
+							atomic.AddInt32(&remaining, -1)
+						}
+						if shape == "trickle" && r.Intn(3) == 0 {
+							time.Sleep(time.Duration(r.Intn(30)) * time.Microsecond)
+						}
+					}
+				}(p)
+			}
+		}
+		consume := func(wg *sync.WaitGroup, deadline time.Time) {
+			for c := 0; c < Cn; c++ {
+				wg.Add(1)
+				go func(c int) {
+					defer wg.Done()
+					r := rand.New(rand.NewSource(seed + 100 + int64(c)))
+					name := fmt.Sprintf("c%d", c+1)
+					mine := []int{}
+					for atomic.LoadInt32(&remaining) > 0 && time.Now().Before(deadline) {
+						m := []string{"Poll", "Take"}[r.Intn(2)]
+						if stack {
+							m = "Pop"
+						}
+						if v, res := safe(m, 0); res == "ok" {
+							mine = append(mine, v)
+							atomic.AddInt32(&remaining, -1)
+						} else if res == "panic" {
+							time.Sleep(10 * time.Microsecond)
+						}
+					}
+					mu.Lock()
+					out.Got[name] = append(out.Got[name], mine...)
+					mu.Unlock()
+				}(c)
+			}
+		}
+		deadline := time.Now().Add(4 * time.Second)
+		var pw, cw sync.WaitGroup
+		waitFor := func(wg *sync.WaitGroup, d time.Duration) bool { // a call may block for ever (a lock left held by a panicking call)
+			ch := make(chan struct{})
+			go func() { wg.Wait(); close(ch) }()
+			select {
+			case <-ch:
+				return true
+			case <-time.After(d):
+				return false
+			}
+		}
+		if shape == "burst" {
+			produce(&pw)
+			if !waitFor(&pw, 6*time.Second) {
+				out.Stuck = true
+			}
+			consume(&cw, deadline)
+		} else {
+			consume(&cw, deadline)
+			produce(&pw)
+			if !waitFor(&pw, 6*time.Second) {
+				out.Stuck = true
+			}
+		}
+		done := make(chan struct{})
+		go func() { cw.Wait(); close(done) }()
+		select {
+		case <-done:
+		case <-time.After(6 * time.Second):
+			out.Stuck = true
+		}
+	}
+	drained := make(chan []int, 1)
+	go func() {
+		d := []int{}
+		for k := 0; k < 200000 && !out.Stuck; k++ { // drain
+			m := "Poll"
+			if stack {
+				m = "Pop"
+			}
+			v, res := safe(m, 0)
+			if res != "ok" {
+				break
+			}
+			d = append(d, v)
+		}
+		drained <- d
+	}()
+	select {
+	case d := <-drained:
+		out.Drain = d
+	case <-time.After(5 * time.Second):
+		out.Stuck = true
+	}
+	out.Panics = int(atomic.LoadInt32(&panics))
+	for c := 0; c < Cn; c++ {
+		if out.Got[fmt.Sprintf("c%d", c+1)] == nil {
+			out.Got[fmt.Sprintf("c%d", c+1)] = []int{}
+		}
+	}
+	mu.Lock()
+	w.write(out)
+	mu.Unlock()
+}
+
 func c08Main(args []string) error {
 	switch args[0] {
+	case "wide":
+		w, err := newNDWriter(flagVal(args, "out", "c08.wide.ndjson"))
+		if err != nil {
+			return err
+		}
+		defer w.close()
+		seed := int64(envInt("VERIF_SEED", 1))
+		rounds := flagInt(args, "rounds", 6)
+		for r := 0; r < rounds; r++ {
+			c08Wide(w, seed*977+int64(r), false, "trickle", 4, 8, 150)
+			c08Wide(w, seed*977+int64(r), r%2 == 1, "burst", 3, 4, 1500)
+		}
+		fmt.Printf("{\"runs\":%d}\n", 2*rounds)
+		return nil
 	case "modes": // which pairs of methods may be inside the wrapped structure together
 		ms := []string{"Put", "Offer", "Take", "Poll", "Push", "Pop"}
 		shared := map[string]bool{}
